@@ -48,6 +48,8 @@ func (g *G) text() string {
 		return quoteAtom(g.S)
 	case 'i':
 		return fmt.Sprint(g.I)
+	case 'f':
+		return g.S
 	}
 	if g.S == "." && len(g.Args) == 2 {
 		var es []string
